@@ -234,7 +234,8 @@ def run(gen, gen_path, externs, extra_flags=(), timeout=1500, verify_fn=None, ex
             if not res.failures:
                 res.status = 'undecided'
                 res.reason = 'verus reports %d errors but no classifiable diagnostic' % res.errors
-        elif js is not None and not js.get('verification-results', {}).get('success'):
+        elif js is not None and not js.get('verification-results', {}).get('success') and (
+                js['verification-results'].get('encountered-error') or js['verification-results'].get('is-verifying-entire-crate', True)):
             res.status = 'undecided'
             res.reason = 'verus did not succeed and gave no diagnostic: ' + p.stderr[-400:]
     return res
